@@ -87,6 +87,7 @@ func scC09(r *Run) {
 			u.ntpUnix = cl.ntp.UnixNano() + int64(durOf(u.dts-cl.units[0].dts, cl.track.clock))
 		}
 	}
+	r.Arm("rotate.afterBroadcast")
 	tr := newSimTransport(r)
 	org := &muxOrigin{r: r, w: w, tr: tr}
 	lat := Pick(T, 0, 10, 100, 500, 2000)
@@ -132,8 +133,15 @@ func scC09(r *Run) {
 				return
 			}
 			w.next = cl.idx + 1
-			cl.err = w.doWrite(cl)
-			cl.done = true
+			// the write runs on the writer task and pauses after every broadcast until the woken
+			// request handlers are at rest (exact repeatability of multi-rotation writes)
+			w.writer.Start(func() {
+				cl.err = w.doWrite(cl)
+				cl.done = true
+			})
+			for i := 0; i < 64 && w.writer.Parked() != ""; i++ {
+				w.writer.Resume()
+			}
 			if cl.err != nil {
 				writeErr = true
 				w.script = w.script[:cl.idx]
